@@ -19,7 +19,7 @@ ASSUME = [
 
 def main():
     c = Check("C07")
-    c.prove(gen=["wire", "stmts"])
+    c.prove(gen=["stmts"])
     c.correspond("sync")
     return c.finish(
         rule="(render) 4000 pairs of views: %v rendering equal iff lists equal. (step) 120 (1500) histories on a real Member, 2-6 configured ids from a pool spanning 0..65535, 3 topics, 20-80 steps: registrations (incl. repeated), "
